@@ -458,7 +458,7 @@ def solve_stages(stages, rlimit, timeout_ms, use_cvc5, cex_terms, deadline=None)
     if verdict == "unknown":
         z3_round(1.0)
     if verdict == "unknown" and use_cvc5:
-        cvc5_round(max(10, timeout_ms // 2000))
+        cvc5_round(min(90, max(10, timeout_ms // 2000)))
     if verdict == "unknown" and cand is not None:
         verdict, backend, model = "sat-qf", "z3/qf", cand
     return {"verdict": verdict, "backend": backend, "model": model, "detail": detail, "secs": round(time.time() - t0, 3)}
